@@ -295,3 +295,52 @@ func returnsError(info *types.Info, c *ast.CallExpr) bool {
 	}
 	return false
 }
+
+// RaiseReturned decides RAISE-RETURNED: in cmd/gts the error ctx.Raise builds
+// is returned by the command. Raise only wraps the error - the command stops
+// because its caller sees a non-nil result. A Raise whose result is dropped
+// lets the command run on as if nothing had happened: with an unreadable
+// secondary input (`gts search q.txt` where q.txt holds no sequence) it
+// processes the records with no query at all, exits 0 and commits that output
+// to the cache - under the digest of the file's bytes, which a literal argument
+// with the same bytes (`@ACGT`) shares, so the literal invocation then replays
+// it.
+func RaiseReturned(p *core.Prog, r *core.Report) {
+	r.Rule("RAISE-RETURNED", "every call of (*flags.Context).Raise in cmd/gts is the operand of a return statement: the error it builds is the only thing that stops the command, so a dropped one lets a failed run finish, exit 0 and commit its output to the cache", 60)
+	info := p.Info(core.PkgMain)
+	n := 0
+	for _, fd := range p.FuncDecls(core.PkgMain) {
+		if fd.Body == nil {
+			continue
+		}
+		par := core.Parents(fd.Body)
+		k := 0
+		for _, c := range core.Calls(fd.Body) {
+			fn := core.Callee(info, c)
+			if fn == nil || fn.Name() != "Raise" || fn.Pkg() == nil || fn.Pkg().Path() != flagsPkg {
+				continue
+			}
+			k++
+			n++
+			key := fmt.Sprintf("main.%s|Raise#%d", core.DeclName(fd), k)
+			returned := false
+			for m := par[ast.Node(c)]; m != nil; m = par[m] {
+				if _, ok := m.(*ast.ReturnStmt); ok {
+					returned = true
+					break
+				}
+				if _, ok := m.(ast.Stmt); ok {
+					break
+				}
+			}
+			if returned {
+				r.Ok("RAISE-RETURNED", key, p.Pos(c.Pos()), "returned")
+			} else {
+				r.Bad("RAISE-RETURNED", key, p.Pos(c.Pos()), fmt.Sprintf("%s builds an error with ctx.Raise and drops it: the command carries on after the failure, finishes with exit status 0 and commits what it wrote to the cache (`gts search q.txt`, q.txt holding the bytes `@gagttttatcgcttcc` and so no sequence, stores the un-annotated input under the key that `gts search @gagttttatcgcttcc` looks up: that cached run then differs from its --no-cache run)", core.DeclName(fd)))
+			}
+		}
+	}
+	if n == 0 {
+		r.Und("RAISE-RETURNED", "main|Raise", "-", "no ctx.Raise call found in cmd/gts")
+	}
+}
